@@ -43,10 +43,7 @@ impl<'a> RegExp<'a> {
         #[cfg(grex_verif)]
         crate::verif::emit(crate::verif::Event::Expr(crate::verif::expression(&ast)));
 
-        if config.is_start_anchor_disabled
-            && config.is_end_anchor_disabled
-            && Self::is_expr_convertible_to_regex(&ast, config)
-        {
+        if config.is_end_anchor_disabled && Self::is_expr_convertible_to_regex(&ast, config) {
             let mut regex = Self::convert_expr_to_regex(&ast, config);
 
             if config.is_verbose_mode_enabled {
@@ -147,7 +144,12 @@ impl<'a> RegExp<'a> {
     fn regex_matches_all_test_cases(regex: &Regex, test_cases: &[String]) -> bool {
         test_cases
             .iter()
-            .all(|test_case| regex.find_iter(test_case).count() == 1)
+            .all(|test_case| match regex.find(test_case) {
+                // The leftmost match must span the entire test case,
+                // not only a shorter test case being its prefix.
+                Some(first_match) => first_match.range() == (0..test_case.len()),
+                None => false,
+            })
     }
 
     fn sort(test_cases: &mut Vec<String>) {
